@@ -32,6 +32,7 @@ CONSTANTS AutoSet,    \* endpoints configured with auto-accept
           MaxClose, MaxCut, MaxRec, MaxFail, MaxSub, MaxStall,
           KnownTags,  \* tags of panic arms / defects already recorded as findings
           Mut,        \* "none", or a seeded defect for the negative configurations of the self-test
+          EarlyVal,   \* TRUE: a validation may be answered before the events queued behind the request are read
           Fixed       \* tags of recorded defects that are modelled as repaired (fix committed to the code)
 
 VARIABLES w, mon, hist
@@ -456,7 +457,8 @@ Internal == \/ Fast \/ \E e \in E : ProtoTimer(e) \/ EnvTimeout(e)
 \* Reduction: the user drains its event queue eagerly (pulling is invisible to everybody else and the
 \* monitors are per endpoint, so only "command issued before an available event was read" is lost; a
 \* command that acts on an outdated view is still covered by the lag of the command queue).
-Next == IF \E e \in E : w.evq[e] # <<>> THEN \E e \in E : UPull(e)
+Next == IF \E e \in E : w.evq[e] # <<>>
+          THEN \E e \in E : UPull(e) \/ (EarlyVal /\ w.evq[e] # <<>> /\ \E v \in {"accept", "reject"} : UVal(e, v))
         ELSE \/ Internal
              \/ EnvCut \/ EnvReconnect \/ \E e \in E : EnvStallTimeout(e)
              \/ \E e \in E : UOpen(e) \/ UClose(e) \/ \E v \in {"accept", "reject"} : UVal(e, v)
